@@ -43,6 +43,10 @@ def plan(tier, seed):
                     'sizes': [121, 130, 200], 'weight': 30, 'timeout': 6000})
   specs += [{'shard': 'ecdsamixed-%d' % i, 'batches': 2 if q else 12,
              'weight': 6} for i in range(3)]
+  for fam in ('rsa', 'ec', 'ecdsa'):
+    for i in range(1 if q else 4):
+      specs.append({'shard': 'resubmit-%s-%d' % (fam, i), 'family': fam,
+                    'weight': 7})
   return specs
 
 
@@ -272,8 +276,79 @@ def run_ecdsamixed(ctx, spec):
     ctx.sample({'family': 'ecdsa-mixed', 'curve': curve, 'weak_kind': kind})
 
 
+def run_resubmit(ctx, spec):
+  """The same healthy artifacts submitted again and again through the entry
+  point (fresh protos each time): alone, reversed with weak neighbours, one by
+  one, twice in one batch, alone again.  Whatever a check remembers between
+  calls must not turn against an artifact it has seen before."""
+  from paranoid_crypto.lib import paranoid
+  fam = spec['family']
+  rng = ctx.rng('resubmit')
+  if fam == 'rsa':
+    entry = paranoid.CheckAllRSA
+    pool = [gen.rsa_key(rsagen.healthy(rng, b)[0]) for b in (2048, 2048, 3072)]
+    weak = workloads.rsa_keys(workloads.rsa_mixed_batch(
+        rng, 3, slow_budget=0, with_healthy=False))
+  elif fam == 'ec':
+    workloads.install_small_maxdiff(2 ** 8)
+    entry = paranoid.CheckAllEC
+    curve = rng.choice(gen.STRONG)
+    n = gen.model_curve(curve).n
+    pool = [gen.ec_key_from_priv(curve, rng.below(n - 1) + 1) for _ in range(5)]
+    base = rng.below(n - 1000) + 1
+    weak = [gen.ec_key_from_priv(curve, (rng.bits(32) | 1) << 16),
+            gen.ec_key_from_priv(curve, base),
+            gen.ec_key_from_priv(curve, base + 3)]
+  else:
+    workloads.install_small_maxdiff(2 ** 8)
+    entry = paranoid.CheckAllECDSASigs
+    curve = rng.choice(['CURVE_SECP256R1', 'CURVE_SECP256K1',
+                        'CURVE_SECP384R1'])
+    n = gen.model_curve(curve).n
+    pool = []
+    for _ in range(2):
+      d, pub = sigs.issuer(rng, curve)
+      pool += sigs.sign_many(rng, curve, d, pub, sigs.nonces_uniform(rng, n, 3))
+    dW, pubW = sigs.issuer(rng, curve)
+    weak = sigs.sign_many(rng, curve, dW, pubW, sigs.nonces_msb(rng, n, 64, 12))
+
+  def fresh(a):
+    b = type(a)().FromString(a.SerializeToString())
+    b.ClearField('test_info')
+    return b
+
+  rounds = [('alone', lambda: [[fresh(a) for a in pool]]),
+            ('reversed+weak', lambda: [[fresh(a) for a in reversed(pool)] +
+                                       [fresh(w) for w in weak]]),
+            ('one-by-one', lambda: [[fresh(a)] for a in pool]),
+            ('twice-in-one-batch', lambda: [[fresh(a) for a in pool + pool]]
+             if fam != 'ecdsa' else [[fresh(a) for a in pool]]),
+            ('alone-again', lambda: [[fresh(a) for a in pool]]),
+            ('alone-once-more', lambda: [[fresh(a) for a in pool]])]
+  for r, (tag, build) in enumerate(rounds):
+    if not ctx.want('round%d' % r):
+      continue
+    for batch in build():
+      ret = entry(batch)
+      healthy = batch[:len(batch) - len(weak)] if tag == 'reversed+weak' \
+          else batch
+      for a in healthy:
+        ctx.count('evaluations')
+        ctx.count('resubmitted_healthy_artifacts')
+        ctx.distinct('resubmit', fam, r, a.SerializeToString()[:40])
+        _accused(ctx, a, 'healthy %s artifact, submission %d (%s)' % (
+            fam, r + 1, tag), {'family': fam, 'round': tag})
+      if tag != 'reversed+weak' and ret is not False:
+        ctx.violation('entry-point-true-for-healthy-batch@resubmission',
+                      '%s returned %r in round %s' % (entry.__name__, ret, tag),
+                      {'family': fam})
+  ctx.sample({'family': fam, 'resubmission_rounds': [t for t, _ in rounds]})
+
+
 def run(ctx, spec):
   s = spec['shard']
+  if s.startswith('resubmit'):
+    return run_resubmit(ctx, spec)
   for prefix, fn in (('rsamixed', run_rsamixed), ('rsa', run_rsa),
                      ('ecdsamixed', run_ecdsamixed), ('ecdsa', run_ecdsa),
                      ('ec', run_ec)):
@@ -286,5 +361,5 @@ def finalize(agg, tier):
   need = ['healthy_rsa_keys', 'healthy_ec_keys', 'healthy_signatures',
           'healthy_rsa_keys_with_weak_neighbours',
           'healthy_signatures_with_weak_neighbours', 'mixed_batches',
-          'healthy_batches']
+          'healthy_batches', 'resubmitted_healthy_artifacts']
   return [], ['reach counter %s is zero' % k for k in need if not c.get(k)]
